@@ -22,7 +22,7 @@ Steps:
 1. Read the relevant code in the worktree and decide on the change.
 2. Before changing anything, run the pinned unit suite to get the baseline: `cd %(wt)s && /venv/bin/python -m pytest -q -p no:cacheprovider --timeout=900 --continue-on-collection-errors tests/unit 2>&1 | tail -5` (about 250 tests pass; some collection errors/failures are pre-existing and expected; one test, test_dos.py::DosTest::test_interactive_shell, is flaky under load — ignore it). Note the pass/fail counts.
 3. Make the change. Re-run the unit suite: the set of passing tests must be unchanged.
-4. Write a demonstration: a small standalone Python script /tmp/seed-out-%(pid)s/demo.py that uses the public pcbasic Session API (e.g. `from pcbasic import Session; s = Session(output_streams=None, input_streams=None); s.execute('...'); s.evaluate('...'); s.get_variable('A$')`, or internal modules if the property is about an internal mechanism) run from the worktree root, which exits 0 when the property holds for its scenario and exits 1 (printing what went wrong) when it does not. It must FAIL with your change applied and PASS on the unchanged code (verify both, using `git stash` / `git stash pop` or `git diff > patch; git checkout .; ...; git apply patch`).
+4. Write a demonstration: a small standalone Python script /tmp/seed-out-%(pid)s/demo.py that uses the public pcbasic Session API (e.g. `from pcbasic import Session; s = Session(output_streams=None, input_streams=None); s.execute('...'); s.evaluate('...'); s.get_variable('A$')`, or internal modules if the property is about an internal mechanism) run from the worktree root, which exits 0 when the property holds for its scenario and exits 1 (printing what went wrong) when it does not. It must FAIL with your change applied and PASS on the unchanged code (verify both, using `git diff > /tmp/seed-out-%(pid)s/patch.diff; git apply -R /tmp/seed-out-%(pid)s/patch.diff; ...; git apply /tmp/seed-out-%(pid)s/patch.diff` — NEVER use `git stash`: the stash is shared between all worktrees of the repository and other people are working in sibling worktrees; also delete __pycache__ directories before each demo run).
 5. Save: /tmp/seed-out-%(pid)s/patch.diff (output of `git diff` in the worktree), /tmp/seed-out-%(pid)s/demo.py, and /tmp/seed-out-%(pid)s/meta.json with keys: property (\"%(pid)s\"), summary (one sentence: what was changed), needs (what specific input/sequence/state is needed for the breakage to manifest), files_changed, unit_suite_before, unit_suite_after (pass/fail counts), demo_fails_with_patch (true/false), demo_passes_without_patch (true/false).
 6. Leave the worktree with your change applied (uncommitted). Do not commit.
 
